@@ -105,7 +105,7 @@ func PfxBFSDelta(r *Run, roots [][]byte, visit Visit, maxStates int, delta int) 
 							}
 						}
 						if len(comp) > 0 {
-							visit(append(append([]byte(nil), child...), comp...))
+							visit(Exact(append(append([]byte(nil), child...), comp...)))
 							st.Transitions++
 						}
 					}
@@ -231,11 +231,11 @@ func Pump(r *Run, loops []Loop, visit Visit, complete func([]byte) []byte, maxN,
 				for i := 0; i < tail; i++ {
 					x = append(x, l.B)
 				}
-				visit(x)
+				visit(Exact(x))
 				n++
 				if complete != nil {
 					if suf := complete(x); len(suf) > 0 {
-						visit(append(x, suf...))
+						visit(Exact(append(x, suf...)))
 						n++
 					}
 				}
@@ -257,3 +257,11 @@ var repSet = func() map[byte]bool {
 }()
 
 func isRep(b byte) bool { return repSet[b] }
+
+// Exact returns a copy of b whose capacity equals its length, so that any read past the end of
+// the input (re-slicing beyond len) fails loudly instead of silently seeing spare capacity.
+func Exact(b []byte) []byte {
+	c := make([]byte, len(b))
+	copy(c, b)
+	return c
+}
